@@ -386,14 +386,11 @@ pub fn go_type_name_for(ty: &tast::Ty) -> String {
             ref_struct_name(elem).replace(['{', '}', ' ', '[', ']', ',', '*'], "_")
         ),
         tast::Ty::TFunc { params, ret_ty } => {
-            let mut s = String::from("TFunc");
-            if params.is_empty() {
-                s.push_str("_unit");
-            } else {
-                for param in params {
-                    s.push('_');
-                    s.push_str(&go_type_name_for(param));
-                }
+            // the arity is part of the name: `() -> T` and `(unit) -> T` are different Go types
+            let mut s = format!("TFunc{}", params.len());
+            for param in params {
+                s.push('_');
+                s.push_str(&go_type_name_for(param));
             }
             s.push('_');
             s.push_str(&go_type_name_for(ret_ty));
